@@ -112,7 +112,9 @@ def norm_stream(evs, trim, lineends, attr_ws, drop_xmlns=True, has_attr_table=Tr
         elif e[0] == 'S':
             attrs = [(a, v) for a, v in e[2] if not (drop_xmlns and a == b'xmlns')] if has_attr_table or True else []
             if attr_ws:
-                attrs = [(a, v.replace(b'\r\n', b' ').replace(b'\r', b' ').replace(b'\n', b' ').replace(b'\t', b' ')) for a, v in attrs]
+                # (a carriage return is always written as &#13; and therefore survives re-reading; literal
+                # line feeds and tabs in an attribute value are normalised to spaces by the reader)
+                attrs = [(a, v.replace(b'\n', b' ').replace(b'\t', b' ')) for a, v in attrs]
             out.append(('S', e[1], attrs))
         else:
             out.append(('E', e[1]))
